@@ -1005,3 +1005,15 @@ def _m77():
             return string.replace(',', '$,')
         return orig(cls, string, syn)
     syntax.Writer.escape_str = classmethod(escape_str)
+
+
+@mutant('win_split_quote_ends_arg')
+def _m78():
+    from bfg9000.shell import windows as w
+    _patch_source(w, 'split', """            if tok == _Token.quote:
+                state = _State.word
+            else:
+                args[-1] += value""", """            if tok == _Token.quote:
+                state = _State.between
+            else:
+                args[-1] += value""")
